@@ -8,6 +8,9 @@ CHECKS = {
  "C13": dict(cat="model_checking", technique="explicit-state BFS over operation histories of the real Heap/Guard/Gc API against a reachability model (state = history replayed on the real code; key = model + heap dump); ASan-instrumented explorer in the thorough tier",
     text="Every operation sequence over the public collector API up to depth 7 (quick) / 8-9 (thorough) from the empty and one-guard states, plus depth 2-3 from scripted states crossing the 256-slot chunk and 16-guard pool boundaries, is executed on the real code and compared with a plain reachability model after every operation; exact live counts and pooled sets after every collection. Model checking is the right level: the contract is over histories, and the space per bound is finite and small.",
     note="Bounds: <=3 guards, <=5 handles, <=4 objects plus bulk prefixes; stale handles only cloned/dropped; memory safety observed by ASan (thorough tier) on the explored executions only.", ref="DESIGN.md section 5 C13"),
+ "C18": dict(cat="exploration", technique="exhaustive enumeration of all (specifier, importer) pairs over a 7-symbol segment alphabet up to a length bound, each compared with an independent reference resolver",
+    text="Complete enumeration (13 M pairs quick, >1.4 G pairs thorough: specifier<=5 x importer<=4 segments and total<=7 segments) of the property's own alphabet; every pair is resolved by the real ModulePath::resolve and compared with an independent join/normalise/clamp reference plus the separately stated invariants (absolute, canonical, no trailing slash, idempotent, bare pass-through). The function is pure, so exhaustive enumeration within the bound is a complete decision for that bound.",
+    note="Reference semantics for the importer's directory = text before the last '/'. The specifiers '.'/'..' alone and relative specifiers without an absolute importer are outside what the statement defines and only checked for no-panic.", ref="DESIGN.md section 5 C18"),
 }
 NA_DEFAULT = "check not built yet (build in progress; see DESIGN.md section 8)"
 NA = {}
